@@ -7,6 +7,7 @@
 pub use serde_json;
 pub mod cli;
 pub mod inputs;
+pub mod gen;
 use serde_json::{json, Value};
 use std::collections::{BTreeMap, BTreeSet};
 use std::path::{Path, PathBuf};
